@@ -81,3 +81,16 @@ W int w_read(mp::BasicSolver* s, int num_vars, int num_objs, int num_cons, int f
     return 0;
   } catch (const mp::InvalidOptionValue&) { return 2; } catch (const VfReadError&) { return 1; } catch (...) { return 3; }
 }
+// the driver flow (ModelManagerWithProblemBuilder::ReadNLModel): the solver options are parsed inside the after-header callback, i.e. the
+// option state (objno_, multiobj_) changes from its defaults to the user's values between the start of OnHeader and the objective selection
+W int w_read_cb(mp::BasicSolver* s, int objno, int multi, int num_vars, int num_objs, int num_cons, int flags) {
+  try {
+    mp::NLHeader h = mp::NLHeader(); h.num_vars = num_vars; h.num_objs = num_objs; h.num_algebraic_cons = num_cons;
+    w_solver_set(s, -1, 0);                                  // defaults before the options are parsed
+    MockPB pb; Hnd hnd(pb, *s, [s, objno, multi]() { s->*get(TObjno()) = objno; s->*get(TMulti()) = multi != 0; });
+    hnd.OnHeader(h);
+    SymReader rd;
+    mp::internal::NLReader<SymReader, Hnd>(rd, h, hnd, flags).Read();
+    return 0;
+  } catch (const mp::InvalidOptionValue&) { return 2; } catch (const VfReadError&) { return 1; } catch (...) { return 3; }
+}
